@@ -110,7 +110,7 @@ fn leaf_subs(v: &Value) -> Vec<Sub> {
                 }
             }
             Value::Number(_) => {
-                for (w, val) in [("0", json!(0)), ("0.0", json!(0.0)), ("1", json!(1)), ("1.0", json!(1.0)), ("ugly", json!(0.1234567)), ("tiny-negative", json!(-3.5e-7)), ("huge", json!(1e30)), ("0.7", json!(0.7)), ("0.2", json!(0.2)), ("3.0", json!(3.0)), ("50.0", json!(50.0))] {
+                for (w, val) in [("0", json!(0)), ("0.0", json!(0.0)), ("1", json!(1)), ("1.0", json!(1.0)), ("ugly", json!(0.1234567)), ("tiny-negative", json!(-3.5e-7)), ("huge", json!(1e30)), ("0.7", json!(0.7)), ("0.2", json!(0.2)), ("3.0", json!(3.0)), ("50.0", json!(50.0)), ("just-below-1", json!(0.99999994f32)), ("just-above-1", json!(1.0000001f32)), ("tiny-positive", json!(3e-8f32)), ("smallest-normal", json!(f32::MIN_POSITIVE))] {
                     push!(w, Some(val), path);
                 }
             }
